@@ -21,7 +21,7 @@ import (
 
 type p1Case struct {
 	Cfg      scen.P1Config `json:"cfg"`
-	FileDmg  []int         `json:"fdmg"`             // per file: 0 ok, 1 deleted, 2 last byte changed, 3 truncated by one, 4 emptied, 5 garbage of same length, 6 cut to exactly 16384 bytes, 7 a byte changed beyond the first 16 KiB
+	FileDmg  []int         `json:"fdmg"`             // per file: 0 ok, 1 deleted, 2 last byte changed, 3 truncated by one, 4 emptied, 5 garbage of same length, 6 cut to exactly 16384 bytes, 7 a byte changed beyond the first 16 KiB, 8 three bytes appended
 	VolDel   []int         `json:"voldel,omitempty"` // volumes (1-based) deleted
 	VolDmg   []int         `json:"voldmg,omitempty"` // per volume: 0 ok, 1 deleted, 2 one byte corrupted, 3 replaced by a foreign set's volume, 4 truncated, 5 valid hashes but wrong parity data
 	DC       bool          `json:"dc,omitempty"`
@@ -67,6 +67,9 @@ func applyP1(s *scen.P1Set, c *p1Case, seed int64) *envfs.FS {
 				nb[16384+(len(nb)-16384)/2] ^= 0x04
 				fs.Put(s.Paths[i], nb)
 			}
+		case 8:
+			// bytes appended: the protected content is still there as a prefix (an empty file gains content)
+			fs.Put(s.Paths[i], append(append([]byte{}, b...), scen.Garbage(seed, 70+i, 3)...))
 		}
 	}
 	for _, v := range c.VolDel {
@@ -320,9 +323,9 @@ func c04Gen(g *core.Gen) {
 							}
 							return
 						}
-						kinds := []int{0, 1}
+						kinds := []int{0, 1, 8}
 						if cur[i] > 0 {
-							kinds = []int{0, 1, 2, 3, 4}
+							kinds = []int{0, 1, 2, 3, 4, 8}
 						}
 						for _, k := range kinds {
 							dm[i] = k
@@ -413,7 +416,7 @@ func c04Deviate(g *core.Gen, cfg scen.P1Config, D int) {
 	type dev struct{ file, kind, vol int }
 	var menu []dev
 	for f := range cfg.Sizes {
-		for k := 1; k <= 4; k++ {
+		for _, k := range []int{1, 2, 3, 4, 8} {
 			menu = append(menu, dev{file: f, kind: k})
 		}
 	}
@@ -446,7 +449,7 @@ func init() {
 	core.Register(&core.Prop{
 		ID:    "C04",
 		Level: "model_checking",
-		Rule: "(later rounds added: the PAR1 decoder protocol search, both alphabets; a fresh-process probe whose first PAR1 call handles 158 / 200 / 254 files; runs of 9..12, 30 and all-but-three deleted volumes in sets of 20 / 60 / 99; files of 65535 / 65536 / 65537 / 131072 bytes; disk twins from another working directory with upper-case look-alike volumes of another set beside them, three spellings of the index path and a symlinked file) full product: 1-3 (thorough 4) files x sizes {0,1,2,5,9} (not all empty) x volumes {1,2,3} x every assignment of {intact, deleted, last byte changed, truncated, emptied} to the files x every subset of deleted volumes; " +
+		Rule: "(later rounds added: the PAR1 decoder protocol search, both alphabets; a fresh-process probe whose first PAR1 call handles 158 / 200 / 254 files; runs of 9..12, 30 and all-but-three deleted volumes in sets of 20 / 60 / 99; files of 65535 / 65536 / 65537 / 131072 bytes; disk twins from another working directory with upper-case look-alike volumes of another set beside them, three spellings of the index path and a symlinked file) full product: 1-3 (thorough 4) files x sizes {0,1,2,5,9} (not all empty) x volumes {1,2,3} x every assignment of {intact, deleted, last byte changed, truncated, emptied, bytes appended} to the files x every subset of deleted volumes; " +
 			"all <=2-deviation scenarios around sets with Unicode/astral names, sizes around 16 KiB, 20/40 files; 10/98/99 volumes with non-contiguous survivors. Each scenario runs real Create, Verify, Verify(all data), Repair. " +
 			"Oracle: byte comparison for counts; reference GF(2^8) rank of the system on the first present volumes for must-succeed. non-trivial = damaged scenario where Repair wrote >=1 file",
 		Assumptions: []string{"klauspost/reedsolomon picks the first present shards in order; the reference recomputes singularity of exactly that system with its own GF(2^8)"},
